@@ -13,6 +13,7 @@ from .stmt import StmtMixin
 from .calls import CallMixin
 from .spec import SpecMixin
 from .builtins import BuiltinMixin
+from .witness import WitnessMixin
 
 REPO = os.environ.get("VERIF_REPO", "/repo")
 SRC = "src/experimaestro"
@@ -70,7 +71,7 @@ def decorators(fn):
     return out
 
 
-class Engine(ExprMixin, StmtMixin, CallMixin, SpecMixin, BuiltinMixin):
+class Engine(ExprMixin, StmtMixin, CallMixin, SpecMixin, BuiltinMixin, WitnessMixin):
     def __init__(self, reg: Registry, source: Source = None, prop=None):
         self.reg = reg
         self.src = source or Source()
@@ -239,7 +240,8 @@ class Engine(ExprMixin, StmtMixin, CallMixin, SpecMixin, BuiltinMixin):
             return
         for p in posts:
             if clause_active(p, self.prop):
-                self.oblige(f"{tag} {key}: {clause_text(p)}", "post" if tag == "post" else "xpost", self.spec(st, entry, clause_text(p), b), st)
+                self.oblige(f"{tag} {key}: {clause_text(p)}", "post" if tag == "post" else "xpost", self.spec(st, entry, clause_text(p), b), st,
+                            info=dict(clause=clause_text(p), tag=tag))
         if mods is not None:
             self.check_frame(c, key, entry, b, st, mods)
         for name, guard in c.get("effect_guards", {}).items():
